@@ -878,6 +878,21 @@ def sweep_path(ctx, rng, x):
     with quiet():
         view = path_view(x)
     w = {'kind': 'path', 'value': short(view)}
+    # a path value with nothing set (no payload yet): empty text, read back as absent - not a crash
+    ctx.count('empty:' + fam)
+    for t in PathRepresentationType:
+        try:
+            e = cls(t)
+            txt = e.to_json()
+            back = cls.from_json(txt)
+        except Exception as ex:
+            ctx.violation(f'C03/{low}-empty-value-raises', 'a value with nothing set is encoded as empty text and read back as absent',
+                          {'kind': 'path', 'class': fam, 'type': t.name, 'exception': f'{type(ex).__name__}: {ex}'[:200]})
+            break
+        if txt != '' or back is not None:
+            ctx.violation(f'C03/{low}-empty-value-not-empty-text', 'a value with nothing set is encoded as empty text and read back as absent',
+                          {'kind': 'path', 'class': fam, 'type': t.name, 'text': short(txt), 'decoded': short(repr(back))})
+            break
     ok, text = encode(ctx, x, fam, w)
     if not ok:
         return
